@@ -127,7 +127,11 @@ def run_same_text_recompiles(ctx, rounds, nthreads):
 
             def worker(tid):
                 try:
-                    barrier.wait(timeout=30)
+                    try:
+                        barrier.wait(timeout=120)
+                    except threading.BrokenBarrierError:
+                        ctx.count("barrier-timeout (machine load; round skipped)")
+                        return
                     time.sleep(0.0005 * tid)              # staggered arrival: later threads find a compile in progress
                     ev.recompile(new)
                     got = ev(u="u1", x=-1)
